@@ -231,6 +231,10 @@ def run(tier):
         "rule": "one evaluation = one (pattern length P, text length T) obligation: z3 decides `no panic` and `result == glob recurrence` for ALL sequences of P and T Unicode scalar values; non-trivial = both lengths >= 1 and both queries unsat; each (P,T) is distinct",
         "samples": [{k: r.get(k) for k in ("P", "T", "verdict", "blocks", "feasibility_queries", "memo_hits", "symex_s", "solver_s")} for r in (ok[-3:] + violations[:2] + undis[:2])],
         "obligations": len(results), "discharged": len(ok),
+        "states": max(1, sum(r.get("blocks", 0) for r in results)),
+        "transitions": max(1, sum(r.get("feasibility_queries", 0) for r in results) + 2 * len(results)),
+        "traces_validated_against_impl": len(pairs) + len(violations) + len(machinery),
+        "states_transitions_note": "states = MIR basic blocks executed symbolically over all obligations; transitions = solver queries (branch feasibility + 2 verification queries per obligation); traces_validated = concrete inputs run through both the encoding and the native function (translator validation) + replayed counterexamples",
         "undischarged": [{"P": r["P"], "T": r["T"], "why": r.get("why", r["verdict"])} for r in undis],
         "violations_reproduced": [r["replay"] for r in violations[:10]],
         "machinery_errors": [r.get("replay") for r in machinery],
